@@ -129,7 +129,7 @@ class C02Gen(langgen.Gen):
 
     TEMPLATES = ["self_assign", "call_reassign", "returns", "nested_store", "pop_reuse", "index_overwrite",
                  "interp", "deep_rec", "churn", "param_array", "many_locals", "param_string", "shout_recycle",
-                 "returns", "call_reassign", "churn", "fn_array_result"]
+                 "returns", "call_reassign", "churn", "fn_array_result", "host"]
 
     def t_self_assign(self, ind):
         pad = "  " * ind
@@ -405,6 +405,28 @@ class C02Gen(langgen.Gen):
         for _ in range(self.r.randint(2, 4)):
             lines.append("%sshout(%s)" % (pad, self.r.choice([x.name, "[%s, %s]" % (x.name, x.name), '%s add ""' % x.name])))
             lines.append("%s%s get %s" % (pad, x.name, self.sx()))
+        return lines
+
+    def t_host(self, ind):
+        """host values (process commands) are heap-backed too: returned, stored, passed and mutated.
+        Only their printed form is observed (`to_string`); nothing is spawned."""
+        if not self.can_define_fn() or self.loop_depth >= 1:
+            return None
+        r = self.r
+        pad = "  " * ind
+        mk, use, h, i = self.fresh("f"), self.fresh("f"), self.fresh("h"), self.fresh("i")
+        lines = ["%sdo %s(p) start" % (pad, mk), "%s  make c get command(p)" % pad, '%s  c.arg("a" add p)' % pad,
+                 "%s  return c" % pad, "%send" % pad,
+                 "%sdo %s(q) start" % (pad, use), '%s  q.arg("%s")' % (pad, sized(r, 9)), "%s  return to_string(q)" % pad, "%send" % pad,
+                 "%smake %s get %s(%s)" % (pad, h, mk, self.dyn(r.choice([3, 8, 9, 130]))),
+                 "%s%s.arg(%s)" % (pad, h, self.sx()),
+                 "%smake %s get 0" % (pad, i), "%sjasi (%s small pass %d) start" % (pad, i, r.randint(1, 4)),
+                 '%s  %s.arg("k" add to_string(%s))' % (pad, h, i), "%s  %s get %s add 1" % (pad, i, i), "%send" % pad,
+                 "%sshout(to_string(%s))" % (pad, h),
+                 "%sshout(to_string([%s(%s), %s][0]))" % (pad, mk, self.dyn(4), h),
+                 "%sshout(%s(%s))" % (pad, use, h), "%sshout(to_string(%s))" % (pad, h),
+                 "%sshout(to_string(%s(%s)))" % (pad, mk, self.dyn(9))]
+        self.declare(i, NUM)
         return lines
 
     def t_fn_array_result(self, ind):
